@@ -106,6 +106,8 @@ def unchecked_arith(fn):
             why = normalising_call(t)
             if why:
                 yield bb, 'call %s (%s)' % (c, why)
+    for bb, what in carrying_on_instant(fn):
+        yield bb, what
 
 
 LOSSY_TIME_CALL = re.compile(
@@ -114,6 +116,20 @@ LOSSY_TIME_CALL = re.compile(
     r'chrono::round::(SubsecRound|DurationRound)::\w+|chrono::traits::Timelike::with_nanosecond|'
     r'chrono::datetime::DateTime::(timestamp_millis|timestamp_micros|timestamp_subsec_millis|timestamp_subsec_micros)|'
     r'chrono::time_delta::TimeDelta::(num_milliseconds|num_microseconds|subsec_millis|subsec_micros|abs))$')
+
+
+CARRYING = re.compile(r'^chrono::time_delta::TimeDelta::(nanoseconds|microseconds|milliseconds|try_milliseconds)$')
+
+
+def carrying_on_instant(fn):
+    """in a conversion FROM an Instant (seconds + a sub-second part that must stay below one second) a carrying constructor applied to
+    the sub-second part folds an out-of-range value into the seconds instead of rejecting it (the same constructor on a Duration's total
+    nanoseconds is exact and is not reported)"""
+    if len(fn.locals) < 2 or not norm(fn.locals[1]).lstrip('&').startswith('crux_time::protocol::instant::Instant'):
+        return
+    for bb, t in fn.calls():
+        if CARRYING.match(norm(t.get('callee') or '')):
+            yield bb, 'call %s (carries a sub-second part >= 1 s into the seconds instead of rejecting it)' % norm(t['callee'])
 
 
 def normalising_call(t):
